@@ -28,4 +28,22 @@ def rlpHash (rlpMainnet rlpSignet : Nat) (net : Net) (h : Nat) : Bool :=
   | .signet => decide (rlpSignet ≤ h)
   | .other => true
 
+/-- What a contract reads from the current-txid helper (`0x..fa`) during a transaction executed in block `exec`, given
+the Bitcoin txid that was supplied *with that transaction* (for a parked signed transaction: when it was parked, in
+whatever block): the supplied txid where the Prague rules are in force, nothing (the zero word: the address holds no
+code before Prague, a call returns no data) elsewhere.  The block the transaction was parked in plays no part. -/
+def txidSeen (pragueMainnet pragueSignet : Nat) (net : Net) (exec : Nat) (supplied zero : String) : String :=
+  if prague pragueMainnet pragueSignet net exec then supplied else zero
+
+/-- The same for a parked transaction whose (nonce, target, data) another signer parked again afterwards with the txid
+`other`.  The txid row of a parked transaction is filed under its transaction hash; under the legacy rule (signing
+hash, `rlpHash = false` at the parking block) that hash does not cover the signer, so the later submission overwrites
+the row (known finding F21: contradicts "the txid supplied with *that* transaction"; consensus-level legacy behaviour
+of mainnet below the RLP-hash activation height).  Under the RLP-hash rule the two hashes differ and nothing collides. -/
+def txidSeenColliding (pragueMainnet pragueSignet rlpMainnet rlpSignet : Nat) (net : Net) (park exec : Nat)
+    (supplied other zero : String) : String :=
+  if prague pragueMainnet pragueSignet net exec then
+    (if rlpHash rlpMainnet rlpSignet net park then supplied else other)
+  else zero
+
 end Brc20.Forks
